@@ -7,19 +7,20 @@ def burst_mask(S, n_samples, fs, start, side):
     """samples of cycles labelled is_burst, from last to next side extremum inclusive, relative to the first plotted sample"""
     m = np.zeros(n_samples, dtype=bool)
     for cyc in S.loc[S['is_burst']].to_dict('records'):
-        m[int(cyc['sample_last_' + side]) - int(fs * start):int(cyc['sample_next_' + side] + 1) - int(fs * start)] = True
+        m[int(cyc['sample_last_' + side]) - int(round(fs * start)):int(cyc['sample_next_' + side] + 1) - int(round(fs * start))] = True
     return m
 
 
 def marker_series(sig, times, fs, points):
     """cyclepoints inside the plotted window, as (time, plotted signal value) through one and the same index"""
     cps = points[(points >= times[0] * fs) & (points < times[-1] * fs)]
-    cps = cps - int(times[0] * fs)
+    cps = cps - int(round(times[0] * fs))
     return times[cps], sig[cps]
 
 
-def panel_cycles(S, fs, xlim, side, centre):
-    """the cycles shown in a parameter panel: inside the window, re-indexed to it"""
+def panel_cycles(S, fs, xlim, side, centre, n_times):
+    """the cycles shown in a parameter panel: inside the window, re-indexed to it, and ending on a plotted sample (a cycle whose next side
+    is the sample AT the closing limit passes limit_table's inclusive bound but has no plotted sample there: the view holds times < stop)"""
     S = limit_table(S, fs, xlim[0], xlim[1], True, centre)
-    S = S[(S['sample_last_' + side] >= 0) & (S['sample_next_' + side] < xlim[1] * fs)]
+    S = S[(S['sample_last_' + side] >= 0) & (S['sample_next_' + side] < n_times)]
     return S
